@@ -177,6 +177,34 @@ func init() {
 			return nil
 		},
 		"Native": func(fr *frame, a []value) value { return fr.i.mkBool(false) },
+		// Report(key, v): translator validation -- the engine records the rendered value, the native run prints it,
+		// the self-test compares the two.
+		"Report": func(fr *frame, a []value) value {
+			i := fr.i
+			key := i.argStr(a[0], "report key")
+			i.ex.reports = append(i.ex.reports, key+"="+renderReport(i, a[1]))
+			return nil
+		},
+		// Symbolize(s): the same string, but made of symbolic bytes constrained to s (forces the symbolic code paths
+		// of the engine -- summaries, ite-chains -- on inputs whose native result is known).
+		"Symbolize": func(fr *frame, a []value) value {
+			i := fr.i
+			s := i.argStr(a[0], "Symbolize argument")
+			bs := make([]value, len(s))
+			for k := 0; k < len(s); k++ {
+				t := i.ctx.FreshVar("symz", 8)
+				i.ex.Assume(i.ctx.Cmp(OpEq, t, i.ctx.BV(uint64(s[k]), 8)))
+				bs[k] = ival{t, types.Uint8}
+			}
+			return sstr{bs}
+		},
+		"SymbolizeI64": func(fr *frame, a []value) value {
+			i := fr.i
+			x := a[0].(ival)
+			t := i.ctx.FreshVar("symz", 64)
+			i.ex.Assume(i.ctx.Cmp(OpEq, t, x.t))
+			return ival{t, types.Int64}
+		},
 		"EngineOnlyReplay": func(fr *frame, a []value) value {
 			fr.i.ex.engineOnly = fr.i.argStr(a[0], "reason")
 			return nil
@@ -1164,4 +1192,56 @@ func init() {
 		i.afterChans = append(i.afterChans, ch)
 		return ch
 	}
+}
+
+func renderReport(i *interpreter, v value) string {
+	switch x := v.(type) {
+	case iface:
+		if x.t == nil {
+			return "<nil>"
+		}
+		return renderReport(i, x.v)
+	case ival:
+		t := x.t
+		if !t.IsConst() {
+			// a symbolic value pinned by the path condition: ask for its (unique) value
+			u, ok := i.pinnedValue(t)
+			if !ok {
+				return "<not-pinned>"
+			}
+			t = i.ctx.BV(u, max(t.w, 1))
+			if x.k == types.Bool {
+				return fmt.Sprint(u != 0)
+			}
+		}
+		if x.k == types.Bool {
+			return fmt.Sprint(t.val != 0)
+		}
+		w, signed := kindInfo(x.k)
+		if signed {
+			return fmt.Sprint(sext64(t.val, w))
+		}
+		return fmt.Sprint(t.val)
+	case string:
+		return fmt.Sprintf("%q", x)
+	case sstr:
+		b := make([]byte, len(x.b))
+		for k, e := range x.b {
+			ev := e.(ival)
+			if ev.t.IsConst() {
+				b[k] = byte(ev.t.val)
+			} else {
+				u, _ := i.pinnedValue(ev.t)
+				b[k] = byte(u)
+			}
+		}
+		return fmt.Sprintf("%q", string(b))
+	case []value:
+		parts := make([]string, len(x))
+		for k, e := range x {
+			parts[k] = renderReport(i, e)
+		}
+		return "[" + strings.Join(parts, " ") + "]"
+	}
+	return toString(v)
 }
